@@ -16,7 +16,8 @@
    check runs; no check left means success. *)
 EXTENDS Integers, Sequences, FiniteSets, TLC
 
-CONSTANT FailsOn   \* TRUE: also enumerate one failing fact source per case
+CONSTANT FailScope \* which cases are also enumerated with one failing fact source each:
+                   \* "none", "ordinary" (ordinary senders with an unbanned record), "all"
 
 VARIABLES
   f,      \* the facts of this case
@@ -52,13 +53,16 @@ Extra(t) ==
 
 \* the fact source whose read fails with an infrastructure error ("none" = no failure)
 Fails(t) ==
-  IF ~FailsOn THEN {"none"} ELSE
   {"none", "sender", "target"} \cup
   CASE t \in {"group", "visitors"} -> {"denied", "subscriber", "hasallow", "allow"}
     [] t = "person"                -> {"denied", "allow", "receiver"}
     [] OTHER                       -> {}
 
-Facts == UNION {{[type |-> t, fail |-> x] @@ c @@ e : c \in Common, e \in Extra(t), x \in Fails(t)} : t \in Types}
+FailsFor(c, t) ==
+  IF FailScope = "all" \/ (FailScope = "ordinary" /\ ~c.sysuid /\ ~c.sysdev /\ c.sender = "ok")
+    THEN Fails(t) ELSE {"none"}
+
+Facts == UNION {{[type |-> p[2], fail |-> x] @@ p[1] @@ e : e \in Extra(p[2]), x \in FailsFor(p[1], p[2])} : p \in Common \X Types}
 
 -------------------------------------------------------------------------------
 Chk(read, hit, reason) == [read |-> read, hit |-> hit, reason |-> reason]
